@@ -316,6 +316,11 @@ class StackPartition(Concat):
     def _lower(self):
         return
 
+    def _simplify_up(self, parent, dependents):
+        # ``Concat._simplify_up`` relies on parameters that only the
+        # logical expression has
+        return
+
 
 class StackPartitionInterleaved(StackPartition):
     def _divisions(self):
